@@ -171,3 +171,5 @@ func callZeroArgRotated(obj interface{}, rot int) string {
 	}
 	return fmt.Sprintf("%x", h.Sum(nil))[:12]
 }
+
+func callRender(x interface{}) string { return render(reflect.ValueOf(x), 0) }
